@@ -1300,6 +1300,17 @@ def isfinite(x):
     return f_isfinite(x)
 
 
+def isinf(x):
+    """NP-ISINF: neither finite nor NaN"""
+    from .floats import f_isfinite, f_isnan
+    used('NP-ISINF')
+    one = lambda v: s_and(s_not(f_isfinite(v)), s_not(f_isnan(v)))
+    if isinstance(x, NDArray) or hasattr(x, '_asarray'):
+        x = asarray(x).frozen()
+        return NDArray(x.shape, lambda i: one(x.fn(i)), BOOL)
+    return one(x)
+
+
 def isnan(x):
     from .floats import f_isnan
     used('NP-ISNAN')
@@ -2071,6 +2082,7 @@ class NumpyModule:
     unravel_index = staticmethod(unravel_index)
     isfinite = staticmethod(isfinite)
     isnan = staticmethod(isnan)
+    isinf = staticmethod(isinf)
     any = staticmethod(np_any)
     all = staticmethod(np_all)
     sum = staticmethod(np_sum)
